@@ -525,7 +525,7 @@ def gen_cases(ctx: Ctx):
 def oracle_on_case(ctx: Ctx, case, verbose=False):
     r = run_real(case)
     v = oracle(case, r)
-    if v and case.get("collide") and r.get("collision_forced"):
+    if v and v[0] == "ingest-rank" and case.get("collide") and r.get("collision_forced"):
         # the only difference to the other streams is the path: same file, other name => no violation
         v = ("ingest-jobhash-collision", v[1] + f" [file(s) {r['collision_forced']} stored under a path whose job hash "
                                                 f"equals that of the constant job 'top_level_multifile']")
